@@ -3,7 +3,7 @@
    and a result that is not the receiver itself is a newly allocated object. *)
 From Coq Require Import List ZArith QArith Bool Lia.
 From PV Require Import lib.Sx lib.Str lib.Result.
-From PV Require Import model.Geometry model.Store model.GeomStore proofs.StoreFacts.
+From PV Require Import model.Geometry model.Store model.GeomStore proofs.StoreFacts proofs.GeomEq.
 Import ListNotations.
 Open Scope Z_scope.
 
@@ -159,4 +159,26 @@ Theorem as_percentage_new_object : forall v w h,
   fresh (point_pct_s v w h) /\ fresh (stretch_pct_s v w h) /\ fresh (padding_pct_s v w h) /\ fresh (layout_pct_s v w h).
 Proof.
   intros. repeat split; [apply fresh_point_pct|apply fresh_stretch_pct|apply fresh_padding_pct|apply fresh_layout_pct].
+Qed.
+
+(* ---- the value of the result, Size level: the heap operation computes Size.as_percentage_of of the decoded receiver ---- *)
+Lemma dec_new_size : forall st a, dec_size (st ++ [mkObj KSize (size_cells a)]) (VLoc (length st)) = Some a.
+Proof.
+  intros st a. unfold dec_size, field, items_of. rewrite get_app_new. cbn [o_items size_cells assoc val_eqb Z.eqb Pos.eqb].
+  assert (U : unit_of (ucode (s_unit a)) = Some (s_unit a)) by (destruct (s_unit a); reflexivity).
+  rewrite U. destruct a as [[n d] u]. reflexivity.
+Qed.
+
+Theorem size_pct_value : forall v w h st a, dec_size st v = Some a ->
+  match size_pct_s v w h st, size_as_pct a w h with
+  | Ok (st', r), Ok a' => dec_size st' r = Some a'
+  | Err e, Err e' => e = e'
+  | _, _ => False
+  end.
+Proof.
+  intros v w h st a D. unfold size_pct_s, bnd, rd_size. rewrite D.
+  destruct (unit_eqb (s_unit a) PCT) eqn:U.
+  - apply unit_eqb_eq in U. unfold size_as_pct. rewrite U. cbn [ret]. exact D.
+  - unfold lift. destruct (size_as_pct a w h) as [q|e]; [|reflexivity].
+    unfold new_size, new, new_obj, alloc. apply dec_new_size.
 Qed.
